@@ -25,5 +25,5 @@ EXTRA = [
 
 
 def run(ctx):
-    kernel_sync.run(ctx, "comm", 100, 600, extra=EXTRA,
+    kernel_sync.run(ctx, "comm", 100, 400, extra=EXTRA,
                     gen=lambda rng, quick: K.gen_comm_prog(rng, max_actors=3 if quick else 4, max_ops=4))
